@@ -9,9 +9,24 @@ package verifsimrt
 import (
 	"cmp"
 	"iter"
+	"net/http"
 	"reflect"
 	"sort"
 )
+
+// HTTPClientHook, if set, may substitute the HTTP client built at a `&http.Client{...}` literal of
+// the instrumented packages (the S3 proxy backend's SDK transport). Returning nil keeps the original.
+var HTTPClientHook func(site string, c *http.Client) *http.Client
+
+// HTTPClient wraps a `&http.Client{...}` literal.
+func HTTPClient(site string, c *http.Client) *http.Client {
+	if hk := HTTPClientHook; hk != nil {
+		if r := hk(site, c); r != nil {
+			return r
+		}
+	}
+	return c
+}
 
 // Handler is implemented by the simulator.
 type Handler interface {
